@@ -135,11 +135,14 @@ def judgeOutcome (thrown : List String) (st : JSt) (tag text : String) : List St
     (if o.after == "" then [s!"crash {tag} truncated-trace"] else [])
   -- the LPC side compares this_player() before and after every catch that caught something
   let cgBad := if o.segs.any (fun s => (s.splitOn "cg-changed").length > 1) then [s!"restore {tag} command_giver not restored by catch"] else []
+  -- an efun that went on after one of its callbacks caught an error of a nested efun: the LPC side compares its result by value
+  let resBad := if o.segs.any (fun s => (s.splitOn "result-mismatch").length > 1) then
+    [s!"efun-result {tag} an efun that continued after a caught error in a callback returned a wrong result"] else []
   -- … and a heart_beat() that failed (the error reached the backend) must not stay on: it would fail again every tick
   let hbStayBad :=
     if st.probe0 != "" && field side0 "hb" == "1" && field side "hb" == "1" && o.segs.contains "fault-top" then
       [s!"heart-beat {tag} still on after its evaluation failed"] else []
-  regBad ++ loopBad ++ probeBad ++ sideBad ++ hbBad ++ hbStayBad ++ crashBad ++ cgBad ++ checkCatches thrown o.segs
+  regBad ++ loopBad ++ probeBad ++ sideBad ++ hbBad ++ hbStayBad ++ crashBad ++ cgBad ++ resBad ++ checkCatches thrown o.segs
 
 def judgeLine (thrown : List String) (st : JSt) (line : String) : JSt :=
   if line.startsWith "crash" || line.startsWith "sanitizer" then { st with bad := st.bad ++ [s!"crash {line}"] }
